@@ -32,37 +32,137 @@ func mentionsLax(e ast.Expr) bool {
 
 func init() {
 	a := "asn1/asn1.go"
-	bigBranch := func(lean, doc string, pick func(*ast.IfStmt) []ast.Stmt) unit {
-		return unit{lean, func() string {
-			fd := mustFunc("asn1/marshal.go", "makeBigInt")
-			var top *ast.IfStmt
-			for _, st := range fd.Body.List {
-				if i, ok := st.(*ast.IfStmt); ok && src(i.Cond) == "n.Sign() < 0" {
-					top = i
+	// makeBigInt by sign case: what is computed for n < 0, n = 0, n > 0, wherever the dispatch puts it — an if / else-if / else chain
+	// or a switch (tagless over conditions, or tagged on the sign), with an alias `sign := n.Sign()` followed through.
+	signCases := func() map[string][]ast.Stmt {
+		fd := mustFunc("asn1/marshal.go", "makeBigInt")
+		alias := map[string]bool{}
+		norm := func(e ast.Expr) string {
+			t := src(e)
+			for a := range alias {
+				t = strings.ReplaceAll(t, a, "n.Sign()")
+			}
+			return strings.ReplaceAll(t, " ", "")
+		}
+		noteAlias := func(st ast.Stmt) {
+			if a, ok := st.(*ast.AssignStmt); ok && len(a.Lhs) == 1 && len(a.Rhs) == 1 && src(a.Rhs[0]) == "n.Sign()" {
+				alias[src(a.Lhs[0])] = true
+			}
+		}
+		classify := func(c string) string {
+			switch c {
+			case "n.Sign()<0", "0>n.Sign()", "n.Sign()==-1", "n.Sign()<=-1":
+				return "neg"
+			case "n.Sign()==0", "0==n.Sign()":
+				return "zero"
+			case "n.Sign()>0", "0<n.Sign()", "n.Sign()==1", "n.Sign()>=1":
+				return "pos"
+			}
+			return ""
+		}
+		out := map[string][]ast.Stmt{}
+		rest := func() string {
+			for _, k := range []string{"neg", "zero", "pos"} {
+				if _, ok := out[k]; !ok {
+					return k
 				}
 			}
-			if top == nil {
-				panic(bail{"asn1/marshal.go: makeBigInt no longer branches on `n.Sign() < 0`"})
+			return ""
+		}
+		var walkIf func(i *ast.IfStmt) bool
+		walkIf = func(i *ast.IfStmt) bool {
+			if i.Init != nil {
+				noteAlias(i.Init)
 			}
+			k := classify(norm(i.Cond))
+			if k == "" {
+				return false
+			}
+			out[k] = i.Body.List
+			switch e := i.Else.(type) {
+			case *ast.IfStmt:
+				return walkIf(e)
+			case *ast.BlockStmt:
+				if len(out) == 2 {
+					out[rest()] = e.List
+				}
+			}
+			return true
+		}
+		for idx, st := range fd.Body.List {
+			noteAlias(st)
+			switch x := st.(type) {
+			case *ast.IfStmt:
+				if walkIf(x) && len(out) > 0 {
+					// `if neg {…return}` followed by further ifs / plain code: keep scanning
+					if len(out) == 2 {
+						// what follows the chain is the remaining case when every listed branch returns
+						if idx+1 < len(fd.Body.List) {
+							out[rest()] = fd.Body.List[idx+1:]
+						}
+					}
+				}
+			case *ast.SwitchStmt:
+				if x.Init != nil {
+					noteAlias(x.Init)
+				}
+				tagged := x.Tag != nil && norm(x.Tag) == "n.Sign()"
+				if x.Tag != nil && !tagged {
+					continue
+				}
+				var def []ast.Stmt
+				hasDef := false
+				for _, c := range x.Body.List {
+					cc := c.(*ast.CaseClause)
+					if cc.List == nil {
+						def, hasDef = cc.Body, true
+						continue
+					}
+					for _, e := range cc.List {
+						k := ""
+						if tagged {
+							switch strings.ReplaceAll(src(e), " ", "") {
+							case "-1":
+								k = "neg"
+							case "0":
+								k = "zero"
+							case "1":
+								k = "pos"
+							}
+						} else {
+							k = classify(norm(e))
+						}
+						if k != "" {
+							out[k] = cc.Body
+						}
+					}
+				}
+				if hasDef && len(out) == 2 {
+					out[rest()] = def
+				}
+			}
+			if len(out) == 3 {
+				break
+			}
+		}
+		if len(out) != 3 {
+			panic(bail{fmt.Sprintf("asn1/marshal.go: makeBigInt: could not find what is computed for each sign of n (found %d of the cases n < 0, n = 0, n > 0)", len(out))})
+		}
+		return out
+	}
+	bigBranch := func(lean, doc, key string) unit {
+		return unit{lean, func() string {
 			var rows []string
-			for _, st := range pick(top) {
+			for _, st := range signCases()[key] {
 				rows = append(rows, strconv.Quote(src(st)))
 			}
-			return fmt.Sprintf("/-- generated from asn1/marshal.go func makeBigInt: %s, statement by statement -/\ndef %s : List String :=\n  [%s]\n", doc, lean, strings.Join(rows, ",\n   "))
+			return fmt.Sprintf("/-- generated from asn1/marshal.go func makeBigInt: %s, statement by statement (found through the if-chain or the switch that dispatches on the sign) -/\ndef %s : List String :=\n  [%s]\n", doc, lean, strings.Join(rows, ",\n   "))
 		}}
 	}
 	register(genFile{name: "Asn1Lax", units: []unit{
-		bigBranch("makeBigIntNegative", "the branch for n < 0", func(i *ast.IfStmt) []ast.Stmt { return i.Body.List }),
-		bigBranch("makeBigIntZeroPositive", "the branches for n = 0 and n > 0", func(i *ast.IfStmt) []ast.Stmt {
-			if e, ok := i.Else.(*ast.IfStmt); ok {
-				out := append([]ast.Stmt{}, e.Body.List...)
-				if b, ok := e.Else.(*ast.BlockStmt); ok {
-					out = append(out, b.List...)
-				}
-				return out
-			}
-			return nil
-		}),
+		bigBranch("makeBigIntNegative", "what is computed for n < 0", "neg"),
+		bigBranch("makeBigIntZero", "what is computed for n = 0", "zero"),
+		bigBranch("makeBigIntPositive", "what is computed for n > 0", "pos"),
 		{"laxSites", func() string {
 			f := parseFile(rp(a))
 			var sites []string
